@@ -144,9 +144,11 @@ class ParameterSection(Micheline, prim='parameter', args_len=1):
             if not issubclass(cls.args[0], OrType):
                 raise TypeError(f'Unexpected entrypoint `{entrypoint}`: parameter is not of sum type')
             _, key_to_path, _ = cls.args[0].get_type_layout(infer_names=True, entrypoints=True)
-            if not key_to_path:
-                raise TypeError('sum type has to be named (in the scope of PyTezos)')
-            item = cls.args[0].from_python_object(wrap_or(py_obj[entrypoint], key_to_path[entrypoint]))
+            if key_to_path and entrypoint in key_to_path:
+                item = cls.args[0].from_python_object(wrap_or(py_obj[entrypoint], key_to_path[entrypoint]))
+            else:
+                # not an entrypoint: the (possibly inferred) name of a union leaf, as to_python_object produces it
+                item = cls.args[0].from_python_object(py_obj)
 
         return cls(item)
 
